@@ -23,8 +23,15 @@ Compose(r1, B, C) ==       \* A >> B >> C : the first request, then connect(B, C
   ELSE LET rs == {ConnectRes(p, B, C) : p \in r1.posts} IN
        [outcome |-> (CHOOSE r \in rs : TRUE).outcome, posts |-> UNION {r.posts : r \in rs}]
 
+(* n times: connect a -> b, then disconnect it again (long histories in one event; only the final tables are logged) *)
+OneOf(r, s) == IF r.outcome = "ok" /\ r.posts # {} THEN CHOOSE p \in r.posts : TRUE ELSE s
+Cycles(s, a, b, n) ==
+  FoldLeft(LAMBDA acc, i : LET s1 == OneOf(ConnectRes(acc, <<[m |-> a, neg |-> FALSE]>>, <<[m |-> b, neg |-> FALSE]>>), acc) IN
+                           OneOf(ConnectRes(s1, <<[m |-> a, neg |-> TRUE]>>, <<[m |-> b, neg |-> FALSE]>>), s1),
+           s, [i \in 1..n |-> i])
 Expected(e) ==
-  IF e.op = "connect" THEN ViaRes(st, e.via, e.A, e.B)
+  IF e.op = "cycles" THEN [outcome |-> "ok", posts |-> {Cycles(st, e.a, e.b, e.n)}]
+  ELSE IF e.op = "connect" THEN ViaRes(st, e.via, e.A, e.B)
   ELSE IF e.op = "chain" THEN Compose(ConnectRes(st, e.A, e.B), e.B, e.C)
   ELSE [outcome |-> "ok", posts |-> {}]
 
@@ -36,13 +43,13 @@ Step ==
   /\ LET e == Ev  got == e.post  typed == WellTyped(got, NMods(st)) IN
      /\ Check(typed, "post-shape", NMods(st), "tables")
      /\ IF ~typed THEN ok' = FALSE /\ UNCHANGED st
-        ELSE IF e.op \in {"connect", "chain"} /\ ~Consistent(st) THEN
+        ELSE IF e.op \in {"connect", "chain", "cycles"} /\ ~Consistent(st) THEN
           \* the previous logged state was already rejected as inconsistent; no expectation is
           \* defined from it, the trace stays rejected and the new state is still examined
           LET g3 == Consistent(got) IN
           /\ Check(g3, "Consistent:" \o WhyInconsistent(got), "consistent", got)
           /\ ok' = FALSE /\ st' = got
-        ELSE IF e.op \in {"connect", "chain"} THEN
+        ELSE IF e.op \in {"connect", "chain", "cycles"} THEN
           LET r == Expected(e)
               g1 == e.outcome = r.outcome
               g2 == got \in r.posts
